@@ -23,7 +23,7 @@ HEADER = [
 
 HAZARD_KINDS = ["floordiv", "mod", "truediv", "pow", "andor", "bool-text", "continue", "retype", "minmax-abs-float",
                 "stale-len", "first-assign-in-loop-branch", "for-var-assign", "for-bound", "list-local",
-                "list-append-literal", "stmt-call-types", "uncalled-helper"]
+                "list-append-literal", "stmt-call-types", "uncalled-helper", "param-retype"]
 
 STR_ATOMS = ["a", "b", "ok", "x1", "go", "Z", "hi there", "n=", "-", "v:"]
 
@@ -808,7 +808,11 @@ class ProgGen:
         self.in_function = True
         saved_scopes = self.scopes
         # functions see only their parameters (and the serial monitor / leds)
-        self.scopes = [{p: Var(p, t, scope="function") for p, t in zip(pnames, ptypes)}]
+        # an unannotated non-int parameter that the body re-assigns is typed inconsistently by the transpiler (known
+        # finding KF-param-retype-in-body): such parameters are read-only in the clean profile
+        annotated = ret is None and not self.h("stmt-call-types")
+        self.scopes = [{p: Var(p, t, scope="function", ro=(t != "int" and not annotated and not self.h("param-retype")))
+                        for p, t in zip(pnames, ptypes)}]
         saved_loop, saved_main = self.loop_depth, self.in_main_loop
         self.loop_depth, self.in_main_loop = 0, False
         self.ind += 1
